@@ -704,3 +704,66 @@ def reconsume_rule(ctx, rid: str, prefixes, floor: int = 1):
                            f'a generator passed as `{p}` is empty the second time, so what it held is silently dropped', m.rel, (hits[0].lineno if hits else st.lineno))
     if n == 0:
         raise AnalysisError(f'{rid}: no materialised one-shot parameter in scope')
+
+
+# ---------------------------------------------------------------------------------------------------------------------
+# Operations that wrap children (a sub-operation, conditions, a circuit) rewrite the keys of those children in their
+# key-rewriting protocol methods.  Their `_control_keys_` must report the control keys of the same children: the circuit
+# uses it to keep an operation behind the measurement it reads.
+KEY_REWRITERS = {
+    '_with_measurement_key_mapping_': 'with_measurement_key_mapping',
+    '_with_key_path_': 'with_key_path',
+    '_with_key_path_prefix_': 'with_key_path_prefix',
+    '_with_rescoped_keys_': 'with_rescoped_keys',
+}
+
+
+def rewritten_children(repo, kc):
+    """fields of kc that flow into the protocol call of one of its key-rewriting methods; {} for leaf classes"""
+    from ..flow import name_deps
+    out = {}
+    for mn, pf in KEY_REWRITERS.items():
+        fn = kc.methods.get(mn)
+        if fn is None:
+            continue
+
+        def src(n_):
+            if isinstance(n_, ast.Attribute) and isinstance(n_.value, ast.Name) and n_.value.id == 'self':
+                return {F.norm_field(repo, kc, n_.attr)}
+            return None
+        dep = name_deps(fn, {}, source_of=src)
+        got = set()
+        for c_ in ast.walk(fn):
+            if isinstance(c_, ast.Call) and call_name(c_) in (pf, '_' + pf + '_'):
+                exprs = list(c_.args) + [k_.value for k_ in c_.keywords]
+                if isinstance(c_.func, ast.Attribute):
+                    exprs.append(c_.func.value)
+                for a_ in exprs:
+                    for x_ in ast.walk(a_):
+                        if isinstance(x_, ast.Name):
+                            got |= dep.get(x_.id, set())
+                        got |= src(x_) or set()
+        out[mn] = {f for f in got if f.startswith('_')}
+    return out
+
+
+def control_keys_cover_rule(ctx, rid: str, floor: int = 3):
+    repo = ctx.repo
+    ctx.rule(rid, 'control keys are reported for every child: a class whose key-rewriting protocol methods rewrite the keys of child fields (sub-operation, conditions, operations) '
+             'reads every one of those fields in `_control_keys_` - otherwise keys read inside the child are invisible to the circuit, which then places the operation before or next to '
+             'the measurement it depends on', floor=floor, style='COH')
+    for kc in sorted(repo.classes.values(), key=lambda c_: c_.qual):
+        if '.testing.' in kc.qual or '.contrib.' in kc.qual or kc.qual == 'cirq.value.measurement_key.MeasurementKey':
+            continue
+        qfn = kc.methods.get('_control_keys_')
+        if qfn is None:
+            continue
+        rw = rewritten_children(repo, kc)
+        union = set().union(*rw.values()) if rw else set()
+        if not union:
+            continue
+        rd_ = {F.norm_field(repo, kc, f_) for f_ in F.self_reads(repo, kc, qfn, depth=2)}
+        miss = sorted(union - rd_)
+        ctx.ob(rid, f'{kc.qual}._control_keys_:covers-rewritten-children', not miss,
+               '' if not miss else f'_control_keys_ never looks at {miss}, whose keys the key-rewriting methods of {kc.name} rewrite: control keys read inside that child are not '
+               'reported, so the circuit places the operation before / next to the measurement it depends on', kc.mod.rel, qfn.lineno)
